@@ -113,3 +113,20 @@ def case_hash(obj):
 
 def jdump(obj):
     return json.dumps(obj, sort_keys=True, ensure_ascii=True, default=repr)
+
+
+def copy_tree(src, dst):
+    """Recursive copy that also reproduces symlinks, FIFOs and sockets (as FIFOs)."""
+    import stat as _stat
+    os.makedirs(dst, exist_ok=True)
+    for name in os.listdir(src):
+        a, b = os.path.join(src, name), os.path.join(dst, name)
+        st = os.lstat(a)
+        if _stat.S_ISLNK(st.st_mode):
+            os.symlink(os.readlink(a), b)
+        elif _stat.S_ISDIR(st.st_mode):
+            copy_tree(a, b)
+        elif _stat.S_ISREG(st.st_mode):
+            shutil.copy2(a, b)
+        else:
+            os.mkfifo(b)
